@@ -73,7 +73,6 @@ func cmdRun(args []string) {
 	defer os.RemoveAll(tmp)
 	gen := MakeGenesis(tmp)
 	var wg sync.WaitGroup
-	ch := make(chan int)
 	var mu sync.Mutex
 	stats := map[string]int{}
 	for w := 0; w < *workers; w++ {
@@ -82,7 +81,7 @@ func cmdRun(args []string) {
 			defer wg.Done()
 			rec := NewRecorder(filepath.Join(*out, fmt.Sprintf("trace-%02d.ndjson", w)))
 			defer rec.Close()
-			for i := range ch {
+			for i := w; i < len(scheds); i += *workers { // static assignment: trace files are a function of the inputs
 				s := scheds[i]
 				st := RunSchedule(gen, tmp, *seed+int64(i)*7919, rec, s)
 				mu.Lock()
@@ -93,10 +92,6 @@ func cmdRun(args []string) {
 			}
 		}(w)
 	}
-	for i := range scheds {
-		ch <- i
-	}
-	close(ch)
 	wg.Wait()
 	bz, _ := json.Marshal(stats)
 	fmt.Println("STATS", string(bz))
